@@ -39,7 +39,10 @@ def claimed():
         kind = ('case-split' if 'fork_' in open(path).read() else 'symbolic')
         src = open(path).read()
         if "kind='smt'" in src:
-            kind += ' + z3'
+            kind = (kind + ' + z3 queries') if 'post: _' in src else (
+                'z3 queries over results of the real code')
+        if 'fork_' in src and ("pre: -" in src or 'symbolic through' in src):
+            kind = 'symbolic + case-split'
         rows.append(f"| {pid} | {kind} | {esc(', '.join(meta['functions'])[:230])} "
                     f"| {esc('; '.join(meta['bounds'])[:260])} |")
     head = ('| id | inputs | functions of /repo exercised | bounds (short; '
